@@ -762,6 +762,10 @@ func (x *ext) do(e *dbx.Exec, f []string) (string, bool) {
 type gen struct {
 	r      *hxlib.Run
 	marker int
+	// the history under construction has a non-privileged interface with a delayed write cache: what that interface
+	// writes stays in its write set (it cannot flush), so its records carry neither a relative expiry nor an expiry in
+	// the past (gcache keeps the TTL of an overwritten entry; see notes/c02.md, "Partial")
+	plainExpiry bool
 }
 
 func (g *gen) pick(l []string) string { return l[g.r.Rng.Intn(len(l))] }
@@ -771,7 +775,7 @@ func (g *gen) rec(keys []string, forms []string) (key, form, line string) {
 	form = g.pick(forms)
 	key = g.pick(keys)
 	g.marker++
-	meta := dbx.GenMetaX(rng, true, false, false)
+	meta := dbx.GenMetaY(rng, true, g.plainExpiry, false, g.plainExpiry)
 	if rng.Intn(3) != 0 { // most records are plainly visible, flags matter
 		m := strings.Split(meta, ",")
 		m[2], m[3] = "0", "0"
@@ -809,14 +813,24 @@ func (g *gen) history(emit func(hxlib.Case), backend string, shadow bool) {
 	anyCached := rng.Intn(3) == 0
 	cached := map[string]bool{}
 	writer := ""
+	// "every combination of the Local and Internal options ... every ... cache setting": the cached interface has a
+	// read cache or — every other cached history — a delayed write cache (Options.DelayCachedWrites = the case's
+	// database). Without both privileges such an interface cannot flush (PutMany refuses it): what it writes is
+	// answered from its cache and reaches the storage only through the evict handler.
+	delayed := false
 	if anyCached {
 		writer = actors[rng.Intn(3)].id
 		cached[writer] = true
+		delayed = rng.Intn(2) == 0
 	}
+	g.plainExpiry = false
 	for _, a := range actors {
 		c := "n"
 		if cached[a.id] {
 			c = "r"
+			if delayed {
+				c = "d"
+			}
 		}
 		lines = append(lines, fmt.Sprintf("if %s %s %s %s 0 0 0 0", a.id, a.l, a.i, c))
 	}
@@ -873,9 +887,16 @@ func (g *gen) history(emit func(hxlib.Case), backend string, shadow bool) {
 			lines = append(lines, "del "+actor+" "+k)
 			g.r.Count("op:delete:" + actorClass(actor))
 		case x < 63:
-			lines = append(lines, fmt.Sprintf("setabs %s %s %s", actor, k, g.pick([]string{"5", "@+3600", "0"})))
+			abs := g.pick([]string{"5", "@+3600", "0"})
+			if g.plainExpiry && abs == "5" {
+				abs = "@+3600"
+			}
+			lines = append(lines, fmt.Sprintf("setabs %s %s %s", actor, k, abs))
 			g.r.Count("op:setabs:" + actorClass(actor))
 		case x < 66:
+			if g.plainExpiry {
+				return
+			}
 			lines = append(lines, fmt.Sprintf("setrel %s %s 3600", actor, k))
 			g.r.Count("op:setrel:" + actorClass(actor))
 		case x < 72:
@@ -979,7 +1000,31 @@ func (g *gen) history(emit func(hxlib.Case), backend string, shadow bool) {
 		}
 	}
 	n := 20 + rng.Intn(60)
-	if anyCached {
+	if delayed {
+		// phase 1: the delayed-write interface subscribes, the privileged interface writes (feeds drained after every
+		// write); phase 2: the delayed-write interface alone reads and writes — its pending writes are not in the
+		// storage, so nobody else looks there meanwhile
+		nsub = 1
+		lines = append(lines, fmt.Sprintf("sub %s s1 %s -", writer, g.pick([]string{"-", "-", "a"})))
+		g.r.Count("op:subscribe:unprivileged")
+		for i := 0; i < 6+rng.Intn(10); i++ {
+			privWrite()
+			drain()
+		}
+		g.plainExpiry = true
+		for i := 0; i < n; i++ {
+			if rng.Intn(15) == 0 {
+				// FlushCache hands the write set to PutMany, which refuses this interface: nothing may reach the storage
+				lines = append(lines, "flush "+writer)
+				g.r.Count("op:flush:unprivileged")
+			} else {
+				unpriv(writer)
+			}
+			drain()
+		}
+		g.plainExpiry = false
+		g.r.Count("delayed-write-cache:" + writer)
+	} else if anyCached {
 		// phase 1: the privileged interface writes; phase 2: everybody else works, P only reads
 		for i := 0; i < 6+rng.Intn(10); i++ {
 			privWrite()
@@ -1021,6 +1066,9 @@ func (g *gen) history(emit func(hxlib.Case), backend string, shadow bool) {
 	kind := "hist:" + backend + sh
 	if anyCached {
 		kind += ":cached"
+	}
+	if delayed {
+		kind += ":delayed-writes"
 	}
 	emit(hxlib.Case{Lines: lines, NonTrivial: true, Kind: kind})
 }
@@ -1291,6 +1339,20 @@ func (g *gen) registryStress(emit func(hxlib.Case)) {
 	emit(hxlib.Case{Lines: lines, NonTrivial: true, Kind: "runtime-registry:4-providers:free-running-stress"})
 }
 
+var delayedWalk = []string{"if P 1 1 n 0 0 0 0", "if D 0 0 d 0 0 0 0", "if E 0 1 e 0 0 0 0", "if F 1 0 d 0 0 0 0",
+	"sub D s1 - -", "sub E s2 - -", "sub F s3 - -",
+	"put P a/x J 0,0,0,0,1,0 S=s:m1;I=i:7", "put P a/y T 0,0,0,0,0,1 S=s:m2;I=i:7;F=f:0;B=b:0;N=o{X=i:0};L=a[]", "put P b J 0,0,0,0,1,1 S=s:m3", "put P abc J 0,0,0,0,0,0 S=s:m4",
+	"feed s1", "feed s2", "feed s3",
+	"get D a/x", "get E a/x", "get F a/x", "get D a/y", "get E a/y", "get F a/y", "get D b", "get E b", "get F b", "exists D b", "get D abc",
+	"get D a/x", "get F a/x", "get E a/y", // second lookup: through the cache path
+	"query D - -", "query E - -", "query F - -", "query D a [I:eq:7]",
+	"del D a/x", "del F a/x", "del E a/y", "setabs D a/y @+3600", "setabs F b @+3600", "mksecret D a/y", "mkcrown E a/y", "mkcrown F a/x",
+	"put D a/x J 0,0,0,0,0,0 S=s:m5", "putnew F b J 0,0,0,0,0,0 S=s:m6", "reput E a/y",
+	"pmbegin D", "pmput D a/x J 0,0,0,0,0,0 S=s:m7", "pmend D", "flush D", "flush E", "flush F",
+	"get P a/x", "get P a/y", "get P b", "get P abc", "query P - -",
+	"put P a/x J 0,0,0,0,1,0 S=s:m8", "mksecret P abc", "del P b", "feed s1", "feed s2", "feed s3",
+	"query D - -", "query E - -", "query F - -"}
+
 func generate(r *hxlib.Run, emit0 func(hxlib.Case)) {
 	emit := func(c hxlib.Case) {
 		if !dbx.Hung() {
@@ -1313,6 +1375,19 @@ func generate(r *hxlib.Run, emit0 func(hxlib.Case)) {
 		for _, sh := range []string{"0", "1"} {
 			emit(hxlib.Case{Lines: append([]string{"cfg " + b + " " + sh}, base...), NonTrivial: true, Kind: "regression"})
 		}
+		// non-privileged interfaces with a delayed write cache (large and small): every read path, subscriptions and
+		// every refused write once (nothing they do here may succeed in writing, so nothing waits in a write set)
+		walk := []string{"cfg " + b + " 0"}
+		for _, l := range delayedWalk {
+			// a flush with an empty write set returns at once on every backend; should one of these interfaces have got a
+			// write through, PutMany on a backend without Batcher may block (notes/c02.md, "Partial") — the walk is to
+			// be judged by what was read and written, so fstree and badger leave the flush out
+			if strings.HasPrefix(l, "flush ") && (b == "f" || b == "g") {
+				continue
+			}
+			walk = append(walk, l)
+		}
+		emit(hxlib.Case{Lines: walk, NonTrivial: true, Kind: "regression:delayed-write-options"})
 		// the same walk with the API operations over a real websocket connection
 		emit(hxlib.Case{Lines: append([]string{"cfg " + b + " 0", "apivia ws"}, base...), NonTrivial: true, Kind: "regression:websocket-api"})
 	}
@@ -1375,6 +1450,11 @@ func monitor(c hxlib.Case, outs []string) (vs []hxlib.Violation) {
 	holder := map[string]string{} // key -> marker of the version stored under it
 	ms, mj := map[string]bool{}, map[string]bool{}
 	backend := "?"
+	// a non-privileged interface with a delayed write cache cannot flush: what it writes waits in its write set and is
+	// answered from its cache, queries read the storage. The reference map has no notion of "written, not stored
+	// yet", so it does not judge the completeness of query results in such a case (the marker rule judges them, the
+	// compiled model — which has the write set — is compared line by line).
+	pendingWrites := false
 	add := func(i int, sig, what string) {
 		vs = append(vs, hxlib.Violation{Sig: sig, What: fmt.Sprintf("op %d %q: %s", i, c.Lines[i], what), Lines: c.Lines[:i+1], Output: outs[:i+1]})
 	}
@@ -1428,6 +1508,9 @@ func monitor(c hxlib.Case, outs []string) (vs []hxlib.Violation) {
 		case "if":
 			privs[f[1]] = priv{f[2] == "1", f[3] == "1"}
 			ms[f[1]], mj[f[1]] = f[5] == "1", f[6] == "1"
+			if (f[4] == "d" || f[4] == "e") && !(f[2] == "1" && f[3] == "1") {
+				pendingWrites = true
+			}
 		case "sub":
 			subPriv[f[2]] = privs[f[1]]
 		case "feed":
@@ -1626,6 +1709,9 @@ func monitor(c hxlib.Case, outs []string) (vs []hxlib.Violation) {
 			}
 		case "rtput", "rtinit", "pq":
 		default:
+			if pendingWrites && (f[0] == "query" || f[0] == "purge") {
+				break
+			}
 			o.Step(i, l, out)
 		}
 	}
@@ -1645,7 +1731,7 @@ func main() {
 	api.VerifSetSink(apiSink)
 	hxlib.Main(&hxlib.Harness{
 		Prop:     "C03",
-		Rule: "a case is one history on one backend (hashmap/bbolt/fstree/badger x shadow-delete) or on an injected runtime database (runtime.Registry whose value provider keeps and logs every record its Set receives, starts with records of all four flag combinations and also changes and pushes values on its own; all actors read and write there: put, put-new, delete, expiry and flag setters, attribute insert, get-and-put-back, batch, purge, API create/update/insert/delete; the Set log and the feeds are drained after every step and the monitor checks that no Set reaches the provider for a key whose current record is visible and not permitted for the actor of that step): a privileged interface (sometimes with AlwaysMakeSecret / AlwaysMakeCrownjewel) writes records with all four flag combinations, each carrying a unique marker string; interfaces with Local/Internal = 00, 01, 10 (one of them possibly with a read cache, then used exclusively) and the database API (NewInterface(nil)) get, test existence, query, put, put-new, delete, set expiry, re-flag, insert attributes, batch-write, purge and subscribe; feeds are drained after every step. Outputs are compared with the compiled Lean model line by line; the monitor checks that no output of a non-privileged actor contains the marker of a record version that actor may not see, and replays the case on a reference map with the permission rules (denied / exists-only / no write-through). Regression cases walk every path once per backend. Parked-query cases (every 10th round, per backend, implementation only): 4-60 records below one prefix, some already protected; a non-privileged query whose consumer does not read until the result buffer is full (or the executor is done), then the privileged interface marks a subset secret / crown jewel / both and returns, then the consumer reads on; records are rendered as they arrive: no marker of a record protected before the query began, and from the (buffer capacity + 2)-th arrival on no record that itself carries a flag the interface may not see. Distinct by the hash of the lines.",
+		Rule: "a case is one history on one backend (hashmap/bbolt/fstree/badger x shadow-delete) or on an injected runtime database (runtime.Registry whose value provider keeps and logs every record its Set receives, starts with records of all four flag combinations and also changes and pushes values on its own; all actors read and write there: put, put-new, delete, expiry and flag setters, attribute insert, get-and-put-back, batch, purge, API create/update/insert/delete; the Set log and the feeds are drained after every step and the monitor checks that no Set reaches the provider for a key whose current record is visible and not permitted for the actor of that step): a privileged interface (sometimes with AlwaysMakeSecret / AlwaysMakeCrownjewel) writes records with all four flag combinations, each carrying a unique marker string; interfaces with Local/Internal = 00, 01, 10 (one of them possibly with a read cache or with a delayed write cache — Options.DelayCachedWrites set without both privileges, so it cannot flush — then used exclusively) and the database API (NewInterface(nil)) get, test existence, query, put, put-new, delete, set expiry, re-flag, insert attributes, batch-write, purge and subscribe; feeds are drained after every step. Outputs are compared with the compiled Lean model line by line; the monitor checks that no output of a non-privileged actor contains the marker of a record version that actor may not see, and replays the case on a reference map with the permission rules (denied / exists-only / no write-through). Regression cases walk every path once per backend. Parked-query cases (every 10th round, per backend, implementation only): 4-60 records below one prefix, some already protected; a non-privileged query whose consumer does not read until the result buffer is full (or the executor is done), then the privileged interface marks a subset secret / crown jewel / both and returns, then the consumer reads on; records are rendered as they arrive: no marker of a record protected before the query began, and from the (buffer capacity + 2)-th arrival on no record that itself carries a flag the interface may not see. Distinct by the hash of the lines.",
 		Extra: func(*hxlib.Run) map[string]any {
 			return map[string]any{"unprivileged_outcomes": outcomes, "api_operations_per_constructor": transports, "registry_query_scheduler": gateStats}
 		},
